@@ -901,6 +901,30 @@ theorem gauges_zero_when_idle (A : System.Arith R) (l0 c0 : R) (os : List (Pipe.
   | none => rfl
   | some g => simp [h1 _ g hc]
 
+/-- the hotspot component's live entries are exactly the admitted-and-not-exited requests, after every history -/
+theorem hot_live_is_reqs (A : System.Arith R) (l0 c0 : R) (os : List (Pipe.Op R)) :
+    (run A (fresh l0 c0) os).1.hot.live = (run A (fresh l0 c0) os).1.reqs.map hotLiveOf :=
+  (hotLive_run A _ os ⟨rfl, by simp [fresh], fun q hq => by simp [fresh] at hq⟩).live
+
+/-- **the hotspot cells return to zero** (C06 `returns_to_zero` / `cell_eq_live` transferred): hotspot rules loaded at the start
+    of the case (`clock t`, `load hot rules`), then any integrated history without another hotspot load; once every admitted
+    entry has exited, every cell of every controller that has not evicted is 0 — whatever was blocked by whichever slot
+    in between (entries blocked before the hotspot slot never touch a cell, entries blocked by a breaker create cells but
+    do not count, admitted entries count +1 and −1). -/
+theorem hot_cells_zero_when_idle (A : System.Arith R) (l0 c0 : R) (t : Nat) (ht : 0 < t) (rules : List HotConc.Rule)
+    (os : List (Pipe.Op R)) (hno : ∀ rs, Pipe.Op.loadHot rs ∉ os)
+    (hidle : (run A (fresh l0 c0) ([.clock t, .loadHot rules] ++ os)).1.reqs = []) :
+    ∀ tc ∈ (run A (fresh l0 c0) ([.clock t, .loadHot rules] ++ os)).1.hot.tcs, tc.ev = false → ∀ v, v ≠ HotConc.Val.nil →
+      HotConc.cellOf tc.cache v = 0 := by
+  intro tc htc hev v hv
+  have hlive := hot_live_is_reqs A l0 c0 ([.clock t, .loadHot rules] ++ os)
+  rw [hidle] at hlive
+  rw [run_append] at htc hlive
+  have h0 := hot_start_reachable A l0 c0 t ht rules
+  have := cell_eq_live_integrated A _ rules os h0 hno tc htc hev v hv
+  rw [this, hlive]
+  rfl
+
 end Sentinel.INT
 
 /-! ## 4. non-vacuity: a concrete integrated history on the code-shaped machine (evaluated by `decide`) -/
